@@ -239,6 +239,9 @@ def run_property(mod, tier, seed=0, mutant=None, keep=False, quiet=False):
         except (SliceError, Undecided) as e:
             print("UNDECIDED property=%s reason=%s" % (pid, e))
             return 2, None
+        only = os.environ.get("VERIF_ONLY")     # development aid: run a subset of the runs (never used by registered commands)
+        if only:
+            jobs = [j for j in jobs if re.search(only, j.name)]
         # heavier jobs first for better packing
         _CANCEL["on"] = False
         if mutant:
@@ -336,8 +339,12 @@ def run_property(mod, tier, seed=0, mutant=None, keep=False, quiet=False):
             rc = 2
         wall = time.time() - t0
         ev = None
-        if not mutant:
+        from . import slicer as _sl
+        dev_run = bool(os.environ.get("VERIF_ONLY")) or os.path.realpath(_sl.REPO) != "/repo"
+        if not mutant and not dev_run:
             ev = write_evidence(mod, tier, seed, jobs, violations, known_hits, undecided, wall)
+        elif dev_run:
+            print("(development run: VERIF_ONLY/VERIF_REPO set - evidence file not rewritten)")
         if not quiet:
             nob = sum(len(j.obligations) for j in jobs)
             nd = sum(1 for j in jobs for o in j.obligations if o["status"] == "SUCCESS")
